@@ -17,6 +17,7 @@ structure S where
   docs : List Doc := []          -- as the code sees them (after the typed decoders)
   raw : List RawDoc := []        -- as written (with the unknown-keys flag)
   garbled : Bool := false
+  writers : Writers := []        -- the history of the other clients (see `Model/Patch`, histories)
 
 def sortA {β : Type} (l : List (Nat × β)) : List (Nat × β) := l.mergeSort (fun a b => a.1 ≤ b.1)
 
@@ -123,6 +124,17 @@ def op? (s : String) : Option Op :=
     some (.patch kd (← k.toNat?) (← bool? g) (← sub.toNat?) im ihe (← body? b))
   | _ => none
 
+/-- `3:set.1.s5+del.2;3:set.2.s1` or `-`: changes of other writers, per object, in landing order. -/
+def writers? (s : String) : Option Writers :=
+  if s == "-" then some [] else
+  (s.splitOn ";").mapM (fun kb => match kb.splitOn ":" with
+    | [k, b] => do
+      let b ← (b.splitOn "+").mapM edit?
+      if b.all (fun e => match e with | .set _ _ => true | .del _ => true | _ => false) then
+        some ((← k.toNat?), b)
+      else none
+    | _ => none)
+
 def form? : String → Option Form
   | "json" => some .json | "yaml" => some .yaml | _ => none
 
@@ -148,6 +160,10 @@ def step (st : S) (toks : List String) : S × String :=
     match bool? g with
     | some g => ({ st with garbled := g }, "ok")
     | none => (st, "bad-op")
+  | ["writers", w] =>
+    match writers? w with
+    | some w => ({ st with writers := w }, "ok")
+    | none => (st, "bad-op")
   | ["doc", v, inl, o] =>
     match bool? v, bool? inl, op? o with
     | some v, some inl, some o =>
@@ -168,7 +184,7 @@ def step (st : S) (toks : List String) : S × String :=
     match form? f with
     | none => (st, "bad-op")
     | some f =>
-      let r := handle concretePf nz f (stream st) ⟨st.cluster, []⟩
+      let r := handleH concretePf nz f (stream st) ⟨st.cluster, []⟩ st.writers
       (st, if r.executed then
           s!"done fail={b01 r.failed} nerr={r.nerr} panic={b01 r.panicked} log={showLog r.st.log} cluster={showCluster r.st.cluster}"
         else s!"skipped fail={b01 r.failed} cluster={showCluster r.st.cluster}")
@@ -184,11 +200,13 @@ def step (st : S) (toks : List String) : S × String :=
       else (st, "true")
     | _, _ => (st, "bad-op")
   | "oracle" :: "exec" :: rest =>
-    -- the property: Spec.expected (nothing applied and failure if anything is invalid; otherwise
-    -- every operation once, in order, with its documented effect and API calls)
+    -- the property: Spec.expectedH (nothing applied and failure if anything is invalid; otherwise
+    -- every operation once, in order, with its documented effect and API calls; an operation that
+    -- writes under the optimistic lock has its documented effect on the object AS IT IS WHEN ITS
+    -- UPDATE SUCCEEDS - the changes other writers made in between survive)
     match (kv? "executed" rest).bind bool?, (kv? "fail" rest).bind bool?, kv? "log" rest, kv? "cluster" rest with
     | some ex, some fail, some lg, some cl =>
-      let (wf, we, wc, wl) := Spec.expected concretePf st.garbled (documented st) st.cluster
+      let (wf, we, wc, wl) := Spec.expectedH concretePf st.garbled (documented st) st.cluster st.writers
       let want := s!"executed={b01 we} fail={b01 wf} log={showLog wl} cluster={showCluster wc}"
       if ex == we && fail == wf && lg == showLog wl && cl == showCluster wc then (st, "true")
       else (st, "false want " ++ want)
